@@ -502,10 +502,10 @@ def iter_next(ip, st, ci):
         raise LoopProbe(it)
     if mode[0] == "iter":
         it = ip.load(st, tg_of(ci["args"][0]))
-        return vsome(iter_elem(ip, st, it, Lin.sym(mode[1])))
+        return [(s2, vsome(e)) for s2, e in iter_elem_multi(ip, st, it, Lin.sym(mode[1]))]
     if mode[0] == "iterk":
         it = ip.load(st, tg_of(ci["args"][0]))
-        return vsome(iter_elem(ip, st, it, lin(mode[1])))
+        return [(s2, vsome(e)) for s2, e in iter_elem_multi(ip, st, it, lin(mode[1]))]
     if mode[0] == "done":
         return vnone()
     raise Undecided("loop mode")
@@ -1028,3 +1028,172 @@ def slice_swap(ip, st, ci):
     ip.store(st, a, vb)
     ip.store(st, b, va)
     return vunit()
+
+
+# ---------------------------------------------------------------- more iterator / slice / closure vocabulary
+@prim("core::iter::once")
+def iter_once(ip, st, ci):
+    return ("iter", "once", ci["args"][0])
+
+
+@prim("Iterator::chain")
+def iter_chain(ip, st, ci):
+    a = _as_iter(ip, st, ci, ci["args"][0], ci["argops"][0])
+    b = _as_iter(ip, st, ci, ci["args"][1], ci["argops"][1])
+    return ("iter", "chain", a, b)
+
+
+@prim("Iterator::enumerate")
+def iter_enumerate(ip, st, ci):
+    a = _as_iter(ip, st, ci, ci["args"][0], ci["argops"][0])
+    return ("iter", "enumerate", a)
+
+
+@prim("Iterator::rev")
+def iter_rev(ip, st, ci):
+    a = _as_iter(ip, st, ci, ci["args"][0], ci["argops"][0])
+    return ("iter", "rev", a)
+
+
+def iter_elem_multi(ip, st, it, i):
+    """[(state, element)] — iterators such as chain(...) need a case split on the index."""
+    k = it[1]
+    if k == "chain":
+        na = iter_count(ip, st, it[2])
+        out = []
+        for s2, first in fork_on(st, ("lt", lin(i) - na)):
+            if first:
+                out.extend(iter_elem_multi(ip, s2, it[2], i))
+            else:
+                out.extend(iter_elem_multi(ip, s2, it[3], lin(i) - na))
+        return out
+    if k == "zip":
+        out = []
+        for s2, a in iter_elem_multi(ip, st, it[2], i):
+            for s3, b in iter_elem_multi(ip, s2, it[3], i):
+                out.append((s3, ("tuple", [a, b])))
+        return out
+    if k == "enumerate":
+        return [(s2, ("tuple", [vsize(i), e])) for s2, e in iter_elem_multi(ip, st, it[2], i)]
+    if k == "ref":
+        return iter_elem_multi(ip, st, ip.load(st, it[2]), i)
+    return [(st, iter_elem(ip, st, it, i))]
+
+
+_old_iter_count = iter_count
+
+
+def iter_count(ip, st, it):  # noqa: F811
+    k = it[1]
+    if k == "once":
+        return ONE
+    if k == "chain":
+        return iter_count(ip, st, it[2]) + iter_count(ip, st, it[3])
+    if k in ("enumerate", "rev"):
+        return iter_count(ip, st, it[2])
+    if k == "zip":
+        a = iter_count(ip, st, it[2])
+        b = iter_count(ip, st, it[3])
+        if st.F.le(a, b):
+            return a
+        if st.F.le(b, a):
+            return b
+        raise Undecided("zip of lengths %r and %r" % (a, b))
+    if k == "ref":
+        return iter_count(ip, st, ip.load(st, it[2]))
+    return _old_iter_count(ip, st, it)
+
+
+_old_iter_elem = iter_elem
+
+
+def iter_elem(ip, st, it, i):  # noqa: F811
+    k = it[1]
+    if k == "once":
+        return it[2]
+    if k == "rev":
+        n = iter_count(ip, st, it[2])
+        return iter_elem(ip, st, it[2], n - 1 - lin(i))
+    if k == "enumerate":
+        return ("tuple", [vsize(i), iter_elem(ip, st, it[2], i)])
+    if k == "chain":
+        r = iter_elem_multi(ip, st, it, i)
+        if len(r) == 1:
+            return r[0][1]
+        raise Undecided("chain element needs a case split")
+    if k == "zip":
+        return ("tuple", [iter_elem(ip, st, it[2], i), iter_elem(ip, st, it[3], i)])
+    if k == "ref":
+        return iter_elem(ip, st, ip.load(st, it[2]), i)
+    return _old_iter_elem(ip, st, it, i)
+
+
+@prim("core::slice::<impl [T]>::copy_within")
+def copy_within(ip, st, ci):
+    tg = tg_of(ci["args"][0])
+    src = ci["args"][1]
+    dest = ci["args"][2]
+    esz = ip.sizeof(crate(ci), fn_targs(ci)[0])
+    total = ip.tlen(st, tg)
+    lo, hi = ZERO, None
+    if src[0] == "range":
+        lo, hi = src[1][1], src[2][1]
+    elif src[0] == "struct" and src[1].endswith("RangeFrom"):
+        lo = src[2]["start"][1]
+    elif src[0] == "struct" and src[1].endswith("RangeTo"):
+        hi = src[2]["end"][1]
+    elif src[0] == "zst" and src[1].endswith("RangeFull"):
+        pass
+    else:
+        raise Undecided("copy_within source %s" % (src[:2],))
+    hb = total if hi is None else hi * esz
+    lb = lo * esz
+    n = hb - lb
+    db = dest[1] * esz
+    ok = st.F.prove_ge(lb) and st.F.prove_ge(n) and st.F.prove_ge(total - hb) and st.F.prove_ge(db) and st.F.prove_ge(total - db - n)
+    oblig(st, ci, "bounds:copy_within", ok, "src [%r,%r) dest %r in %r" % (lb, hb, db, total))
+    if not ok:
+        for g in (lb, n, total - hb, db, total - db - n):
+            st.F.add_ge(g)
+    v = ip.load(st, ip.br(tg, lb, n))
+    ip.store(st, ip.br(tg, db, n), v)
+    return vunit()
+
+
+@prim("core::slice::<impl [T]>::split_first_mut", "core::slice::<impl [T]>::split_first")
+def split_first_mut(ip, st, ci):
+    tg = tg_of(ci["args"][0])
+    esz = ip.sizeof(crate(ci), fn_targs(ci)[0])
+    total = ip.tlen(st, tg)
+    out = []
+    for s2, nonempty in fork_on(st, ("ge", total - esz)):
+        if nonempty:
+            first = vref(ip.br(tg, ZERO, esz))
+            rest = vref(ip.br(tg, esz, total - esz))
+            out.append((s2, vsome(("tuple", [first, rest]))))
+        else:
+            out.append((s2, vnone()))
+    return out
+
+
+@prim("ops::Fn::call", "ops::FnMut::call_mut", "ops::FnOnce::call_once")
+def fn_call(ip, st, ci):
+    f = ci["args"][0]
+    if f[0] == "ref":
+        f = ip.load(st, f[1])
+    tup = ci["args"][1]
+    args = list(tup[1]) if tup[0] == "tuple" else ([] if tup[0] == "unit" else [tup])
+    if f[0] == "closure":
+        return _call_closure(ip, st, ci, f, args)
+    if f[0] == "fn":
+        ci2 = dict(ci)
+        ci2["fn"] = f[1]
+        ci2["args"] = args
+        ci2["argops"] = [ci["argops"][1]] * len(args)
+        return ip.call(st, ci2)
+    raise Undecided("call of %s value" % f[0])
+
+
+@prim("core::slice::<impl [T]>::chunks_exact")
+def chunks_exact_alias(ip, st, ci):
+    return chunks_exact_mut(ip, st, ci)
